@@ -7,173 +7,245 @@ R18.4 exhaustive per-side mode dispatch with side-consistent operands
 R18.5 table state group written together, only by _interpolate; extension keeps (below, old, above) order
 R18.6 typestate: a change of extrapolation mode rebuilds the spline when a table exists
 R18.7 writer and reader of the text format agree
+
+Recognition is by role, not by spelling: a boolean point mask is identified by what it computes (comparison of the input with the
+table range, result of _findInterpolatablePoints, negation of such a mask), locals by what is assigned to them, arguments by
+parameter (keyword or position), control flow through the CFG.  Keys carry fixed role labels, never names of locals.
 """
 from __future__ import annotations
 
 import ast
+import re
 
 import sympy as sp
 
 from ..core import (AnchorMissing, Check, Undecided, attr_stores, calls_in, dotted, kwarg, own_nodes, src,
-                    walk_guarded, slice_src)
+                    walk_guarded)
 from ..flow import CFG
+from ..nf import Ctx, eqx, has, match, nf, parse_pattern, same
 from ..terms import Extractor
 
 LEVEL = "other"
 IF = "interpolatableFunction:InterpolatableFunction"
 STATE = ["_interpolatedFunction", "_rangeMin", "_rangeMax", "_interpolationPoints", "_interpolationValues",
          "_interpolatedDerivatives"]
+ENUM = "EExtrapolationType"
+# per-side: mode attribute -> (role of the side's mask, bound of that side)
+SIDES = {"extrapolationTypeLower": ("lower", "_rangeMin"), "extrapolationTypeUpper": ("upper", "_rangeMax")}
+# fixed labels of the mask roles (used in keys and messages; they do not depend on how the locals are spelled)
+LABEL = {"range": "canInterpolateCondition", "not:range": "needsEvaluationCondition", "lower": "xLower", "upper": "xUpper"}
+# methods through which values are obtained: never looked through when the rules ask *which* of them is used
+EVAL_API = {"_evaluateOutOfBounds", "_evaluateDirectly", "_functionImplementation", "evaluateInterpolation"}
+AS_ARRAY = ("np.asanyarray", "np.asarray", "np.array", "np.atleast_1d", "numpy.asanyarray", "numpy.asarray", "numpy.array")
 
 
 def n(x: ast.AST) -> str:
     return " ".join(src(x).split())
 
 
-# ------------------------------------------------------------------ R18.1
+def _params(fi) -> list[str]:
+    return [p for p in fi.params() if p not in ("self", "cls")]
+
+
+def _arg(S, call: ast.Call, pos: int):
+    """argument number `pos` of a call of a method of InterpolatableFunction, by position or by the keyword its signature gives that position"""
+    short = call.func.attr if isinstance(call.func, ast.Attribute) else (call.func.id if isinstance(call.func, ast.Name) else "")
+    fi = S.cls(IF).methods.get(short)
+    prm = _params(fi) if fi is not None else []
+    return kwarg(call, prm[pos], pos) if pos < len(prm) else (call.args[pos] if pos < len(call.args) else None)
+
+
+def _rename_name(node: ast.AST, old: str, new: str) -> ast.AST:
+    import copy
+    node = copy.deepcopy(node)
+    for x in ast.walk(node):
+        if isinstance(x, ast.Name) and x.id == old:
+            x.id = new
+    return node
+
+
+def _only_via(g: CFG, t, pol: bool, a) -> bool:
+    """statement `a` is executed only after test `t` came out as `pol` (if/else arm, or fall-through after a guard clause)"""
+    if g.node_of(a) is None:
+        return False
+    return g.must_pass(CFG.ENTRY, a, lambda q: q is t) and not g.reaches(g.branch(t, not pol), a, avoid=lambda q: q is t)
+
+
+# ------------------------------------------------------------------ point masks, by role
+class Masks:
+    """boolean point masks of one method.  info(expr) -> (base array, identity, role, expression) or None
+
+    base        the array parameter / local whose points the mask selects (np.asanyarray(x) and x are the same base)
+    identity    a spelling-independent text: two expressions with the same identity select the same points
+    role        lower / upper (comparison with _rangeMin / _rangeMax only), range (both), cmp, or not:<role> for a negation
+    expression  the mask written out in terms of the base (temporaries, simple helpers and mask-returning methods looked through)
+    """
+
+    def __init__(self, S, fi, summaries: dict):
+        self.fi, self.cx, self.summ = fi, Ctx(S, fi), summaries
+        self.assigns: dict[str, list[ast.AST]] = {}
+        self.unpacked: dict[str, list[tuple[ast.Call, int]]] = {}
+        self.other: set[str] = set()      # names also bound in a way that is not followed (loops, with, augmented ...)
+        for st in own_nodes(fi.node):
+            if isinstance(st, ast.Assign):
+                for t in st.targets:
+                    if isinstance(t, ast.Name) and len(st.targets) == 1:
+                        self.assigns.setdefault(t.id, []).append(st.value)
+                    elif isinstance(t, (ast.Tuple, ast.List)) and len(st.targets) == 1 and isinstance(st.value, (ast.Tuple, ast.List)) \
+                            and len(st.value.elts) == len(t.elts) and all(isinstance(e, ast.Name) for e in t.elts):
+                        for e, v in zip(t.elts, st.value.elts):
+                            self.assigns.setdefault(e.id, []).append(v)
+                    elif isinstance(t, (ast.Tuple, ast.List)) and len(st.targets) == 1 and isinstance(st.value, ast.Call):
+                        for i, e in enumerate(t.elts):
+                            if isinstance(e, ast.Name):
+                                self.unpacked.setdefault(e.id, []).append((st.value, i))
+                            else:
+                                self.other |= {y.id for y in ast.walk(e) if isinstance(y, ast.Name)}
+                    else:
+                        self.other |= {y.id for y in ast.walk(t) if isinstance(y, ast.Name) and isinstance(y.ctx, ast.Store)}
+            elif isinstance(st, ast.AnnAssign) and st.value is not None and isinstance(st.target, ast.Name):
+                self.assigns.setdefault(st.target.id, []).append(st.value)
+            elif isinstance(st, ast.AugAssign) and isinstance(st.target, ast.Name):
+                self.other.add(st.target.id)
+            elif isinstance(st, (ast.For, ast.AsyncFor)):
+                self.other |= {y.id for y in ast.walk(st.target) if isinstance(y, ast.Name)}
+            elif isinstance(st, ast.NamedExpr) and isinstance(st.target, ast.Name):
+                self.other.add(st.target.id)
+
+    def canon(self, name: str, _seen=()) -> str:
+        """x and xArr = np.asanyarray(x) are the same array"""
+        vs = self.assigns.get(name, [])
+        if len(vs) == 1 and name not in self.other and name not in self.unpacked and name not in _seen:
+            v = vs[0]
+            if isinstance(v, ast.Call) and dotted(v.func) in AS_ARRAY and v.args and isinstance(v.args[0], ast.Name):
+                if v.args[0].id == name:
+                    return name
+                return self.canon(v.args[0].id, _seen + (name,))
+        return name
+
+    def info(self, e: ast.AST, _depth: int = 0):
+        if e is None or _depth > 6:
+            return None
+        if isinstance(e, ast.Name):
+            if e.id in self.other:
+                return None
+            if e.id in self.unpacked and e.id not in self.assigns:
+                got = set()
+                for call, i in self.unpacked[e.id]:
+                    short = call.func.attr if isinstance(call.func, ast.Attribute) else None
+                    if i != 0 or short not in self.summ:
+                        return None
+                    pos, pname, mexpr = self.summ[short]
+                    a = kwarg(call, pname, pos)
+                    if not isinstance(a, ast.Name):
+                        return None
+                    got.add((self.canon(a.id), short))
+                if len(got) == 1:
+                    b, short = got.pop()
+                    _, pname, mexpr = self.summ[short]
+                    return self._written_out(_rename_name(mexpr, pname, b), b)
+                return None
+            if e.id in self.assigns and e.id not in self.unpacked:
+                infos = [self.info(v, _depth + 1) for v in self.assigns[e.id]]
+                if infos and all(i is not None for i in infos) and len({i[:2] for i in infos}) == 1:
+                    return infos[0]
+            return None
+        if isinstance(e, ast.UnaryOp) and isinstance(e.op, (ast.Invert, ast.Not)):
+            i = self.info(e.operand, _depth + 1)
+            if i is None:
+                return None
+            b, ident, role, r = i
+            return b, f"~({ident})", f"not:{role}", ast.UnaryOp(op=ast.Invert(), operand=r)
+        if isinstance(e, ast.Call):
+            # a (new) helper computing the mask: look through it
+            r = self.cx.resolve(e, keep_calls=EVAL_API)
+            return self.info(r, _depth + 1) if not isinstance(r, ast.Call) else None
+        if isinstance(e, (ast.Compare, ast.BinOp, ast.BoolOp)):
+            if isinstance(e, ast.BinOp) and not isinstance(e.op, (ast.BitAnd, ast.BitOr)):
+                return None
+            r = self.cx.resolve(e, keep_calls=EVAL_API)
+
+            class Arr(ast.NodeTransformer):      # np.asanyarray(x) holds the points of x
+                def visit_Call(s, c):
+                    s.generic_visit(c)
+                    return c.args[0] if dotted(c.func) in AS_ARRAY and len(c.args) == 1 and not c.keywords and isinstance(c.args[0], ast.Name) else c
+            r = Arr().visit(r)
+            comps = [c for c in ast.walk(r) if isinstance(c, ast.Compare)]
+            if not comps:
+                return None
+            bases = {self.canon(o.id) for c in comps for o in [c.left] + list(c.comparators) if isinstance(o, ast.Name)}
+            if len(bases) != 1:
+                return None
+            b = bases.pop()
+            # identity with the base spelled canonically
+            class Rn(ast.NodeTransformer):
+                def visit_Name(s, x):
+                    return ast.copy_location(ast.Name(id=b, ctx=x.ctx), x) if self.canon(x.id) == b else x
+            return self._written_out(Rn().visit(r), b)
+        return None
+
+    def _written_out(self, r: ast.AST, b: str):
+        ident = nf(r, self.cx)
+        attrs = {x.attr for x in ast.walk(r) if isinstance(x, ast.Attribute)}
+        lo, hi = "_rangeMin" in attrs, "_rangeMax" in attrs
+        role = "range" if lo and hi else "lower" if lo else "upper" if hi else "cmp"
+        return b, ident, role, r
+
+    def label(self, info) -> str:
+        return LABEL.get(info[2], info[1])
+
+    def store_mask(self, st: ast.AST):
+        """(mask expression, info) of a masked store `T[mask] = ...` / `T[mask, ...] = ...`"""
+        if not (isinstance(st, ast.Assign) and len(st.targets) == 1 and isinstance(st.targets[0], ast.Subscript)):
+            return None
+        sl = st.targets[0].slice
+        m = sl.elts[0] if isinstance(sl, ast.Tuple) and sl.elts else sl
+        i = self.info(m)
+        return (m, i) if i is not None else None
+
+    def rhs_loads(self, node: ast.AST, base: str, ident: str, bad: list, seen: set, depth: int = 0) -> None:
+        """every load of the base array inside `node` (looking through locals) must be `base[same mask]` (or a shape attribute)"""
+        stack = [node]
+        while stack:
+            x = stack.pop()
+            if isinstance(x, ast.Subscript) and isinstance(x.value, ast.Name) and self.canon(x.value.id) == base:
+                i = self.info(x.slice)
+                if i is None or i[0] != base:
+                    bad.append(f"`{n(x)}` is not the array restricted by the mask of the store")
+                elif i[1] != ident:
+                    bad.append(f"`{n(x)}` is restricted by {self.label(i)}, the store by a different mask")
+                continue
+            if isinstance(x, ast.Attribute) and x.attr in ("shape", "ndim", "dtype", "size") and isinstance(x.value, ast.Name) \
+                    and self.canon(x.value.id) == base:
+                continue
+            if isinstance(x, ast.Name):
+                if not isinstance(x.ctx, ast.Load):
+                    continue
+                if self.canon(x.id) == base:
+                    bad.append(f"the whole array `{base}` is passed, not `{base}[mask of the store]`")
+                elif self.info(x) is not None:
+                    pass
+                elif x.id in self.assigns and x.id not in seen and depth < 5:
+                    seen.add(x.id)
+                    for v in self.assigns[x.id]:
+                        self.rhs_loads(v, base, ident, bad, seen, depth + 1)
+                continue
+            stack.extend(ast.iter_child_nodes(x))
+
+
 def _mask_summaries(chk: Check) -> dict:
-    """methods returning (mask-of-param, ...): name -> param index"""
+    """methods returning (mask-of-param, ...): name -> (param index, param name, the mask written out in terms of the parameter)"""
     out = {}
     ci = chk.src.cls(IF)
     for name, fi in ci.methods.items():
-        rets = [r for r in own_nodes(fi.node) if isinstance(r, ast.Return) and isinstance(r.value, ast.Tuple)]
+        rets = [r for r in own_nodes(fi.node) if isinstance(r, ast.Return) and isinstance(r.value, ast.Tuple) and r.value.elts]
         if len(rets) != 1:
             continue
-        first = rets[0].value.elts[0]
-        if not isinstance(first, ast.Name):
-            continue
-        # definition of that name: boolean combination of comparisons on one parameter
-        for st in own_nodes(fi.node):
-            if isinstance(st, ast.Assign) and len(st.targets) == 1 and n(st.targets[0]) == first.id:
-                comps = [c for c in ast.walk(st.value) if isinstance(c, ast.Compare)]
-                names = {c.left.id for c in comps if isinstance(c.left, ast.Name)}
-                params = [p for p in fi.params() if p != "self"]
-                if comps and len(names) == 1 and list(names)[0] in params:
-                    out[name] = params.index(list(names)[0])
+        i = Masks(chk.src, fi, {}).info(rets[0].value.elts[0])
+        params = _params(fi)
+        if i is not None and i[0] in params:
+            out[name] = (params.index(i[0]), i[0], i[3])
     return out
-
-
-def _masks_in(fi, summaries) -> dict:
-    """local name -> base array name, for boolean masks defined in the function"""
-    masks: dict[str, str] = {}
-    changed = True
-    stmts = [st for st in own_nodes(fi.node) if isinstance(st, ast.Assign) and len(st.targets) == 1]
-    while changed:
-        changed = False
-        for st in stmts:
-            t, v = st.targets[0], st.value
-            # m = x <= c   /  m = (x <= a) & (x >= b)
-            if isinstance(t, ast.Name) and t.id not in masks:
-                comps = [c for c in ast.walk(v) if isinstance(c, ast.Compare)]
-                if comps and isinstance(v, (ast.Compare, ast.BinOp, ast.BoolOp)):
-                    bases = {c.left.id for c in comps if isinstance(c.left, ast.Name)}
-                    if len(bases) == 1:
-                        masks[t.id] = list(bases)[0]
-                        changed = True
-                # m2 = ~m
-                if isinstance(v, ast.UnaryOp) and isinstance(v.op, (ast.Invert, ast.Not)) and isinstance(v.operand, ast.Name) \
-                        and v.operand.id in masks:
-                    masks[t.id] = masks[v.operand.id]
-                    changed = True
-            # m, shape = self._findInterpolatablePoints(x)
-            if isinstance(t, ast.Tuple) and isinstance(v, ast.Call) and isinstance(v.func, ast.Attribute) \
-                    and v.func.attr in summaries and isinstance(t.elts[0], ast.Name) and t.elts[0].id not in masks:
-                idx = summaries[v.func.attr]
-                if idx < len(v.args) and isinstance(v.args[idx], ast.Name):
-                    masks[t.elts[0].id] = v.args[idx].id
-                    changed = True
-    return masks
-
-
-def r18_1(chk: Check) -> None:
-    ci = chk.src.cls(IF)
-    summ = _mask_summaries(chk)
-    chk.note(f"mask summaries: {summ}")
-    count = 0
-    for name, fi in sorted(ci.methods.items()):
-        masks = _masks_in(fi, summ)
-        if not masks:
-            continue
-        chk.touch(fi.name)
-        # restricted aliases: r = x[m]
-        alias: dict[str, tuple[str, str]] = {}
-        for st in own_nodes(fi.node):
-            if isinstance(st, ast.Assign) and len(st.targets) == 1 and isinstance(st.targets[0], ast.Name):
-                v = st.value
-                if isinstance(v, ast.Subscript) and isinstance(v.value, ast.Name) and isinstance(v.slice, ast.Name) \
-                        and v.slice.id in masks and masks[v.slice.id] == v.value.id:
-                    alias[st.targets[0].id] = (v.value.id, v.slice.id)
-        for st in own_nodes(fi.node):
-            if not (isinstance(st, ast.Assign) and len(st.targets) == 1 and isinstance(st.targets[0], ast.Subscript)):
-                continue
-            tgt = st.targets[0]
-            sl = tgt.slice
-            m = sl if isinstance(sl, ast.Name) else (sl.elts[0] if isinstance(sl, ast.Tuple) and isinstance(sl.elts[0], ast.Name) else None)
-            if m is None or m.id not in masks:
-                continue
-            base = masks[m.id]
-            bad = []
-            # all loads of the base array (or of its restricted aliases) on the right-hand side
-            parents = {}
-            for p in ast.walk(st.value):
-                for c in ast.iter_child_nodes(p):
-                    parents[c] = p
-            for x in ast.walk(st.value):
-                if isinstance(x, ast.Name) and isinstance(x.ctx, ast.Load):
-                    if x.id == base:
-                        par = parents.get(x)
-                        if isinstance(par, ast.Subscript) and par.value is x and isinstance(par.slice, ast.Name):
-                            if par.slice.id != m.id and not _same_mask(fi, par.slice.id, m.id):
-                                bad.append(f"`{n(par)}` is restricted by `{par.slice.id}`, the store by `{m.id}`")
-                        elif isinstance(par, ast.Attribute) and par.attr in ("shape", "ndim", "dtype", "size"):
-                            pass
-                        else:
-                            bad.append(f"the whole array `{base}` is passed, not `{base}[{m.id}]`")
-                    elif x.id in alias:
-                        b2, m2 = alias[x.id]
-                        if b2 == base and m2 != m.id and not _same_mask(fi, m2, m.id):
-                            bad.append(f"`{x.id}` = {b2}[{m2}] but the store is masked by `{m.id}`")
-            count += 1
-            chk.ob("R18.1", fi.where(st), f"{name}: `{n(tgt)} = ...` evaluates only the points selected by `{m.id}`",
-                   not bad, "; ".join(bad) + f"  [{n(st)[:120]}]", key=f"masked|{name}|{m.id}|{_callee_key(st.value)}")
-    # out-of-range points go through the mode dispatch (_evaluateOutOfBounds), in-range points through the spline
-    for name in ("evaluate", "derivative"):
-        fi = ci.methods.get(name)
-        if fi is None:
-            raise AnchorMissing(f"InterpolatableFunction.{name} not found")
-        inside, outside = set(), set()
-        for st in own_nodes(fi.node):
-            if isinstance(st, ast.Assign) and len(st.targets) == 1:
-                t, v = st.targets[0], st.value
-                if isinstance(t, ast.Tuple) and isinstance(v, ast.Call) and isinstance(v.func, ast.Attribute) and v.func.attr in summ \
-                        and isinstance(t.elts[0], ast.Name):
-                    inside.add(t.elts[0].id)
-        for st in own_nodes(fi.node):
-            if isinstance(st, ast.Assign) and isinstance(st.targets[0], ast.Name) and isinstance(st.value, ast.UnaryOp) \
-                    and isinstance(st.value.op, (ast.Invert, ast.Not)) and isinstance(st.value.operand, ast.Name) and st.value.operand.id in inside:
-                outside.add(st.targets[0].id)
-        seen_out = seen_in = 0
-        for st in own_nodes(fi.node):
-            if isinstance(st, ast.Assign) and isinstance(st.targets[0], ast.Subscript) and isinstance(st.targets[0].slice, ast.Name):
-                m = st.targets[0].slice.id
-                used = {x.attr for x in ast.walk(st.value) if isinstance(x, ast.Attribute) and isinstance(x.value, ast.Name) and x.value.id == "self"}
-                if m in outside:
-                    seen_out += 1
-                    ok = "_evaluateOutOfBounds" in used and not ({"_evaluateDirectly", "_functionImplementation"} & used)
-                    chk.ob("R18.1", fi.where(st), f"{name}: out-of-range entries are computed through the per-side mode dispatch "
-                           "(_evaluateOutOfBounds), not by direct evaluation", ok, n(st)[:140], key=f"dispatch|{name}|outside")
-                elif m in inside:
-                    seen_in += 1
-                    want = "evaluateInterpolation" if name == "evaluate" else "_interpolatedDerivatives"
-                    ok = want in used and not ({"_evaluateDirectly", "_functionImplementation", "_evaluateOutOfBounds"} & used)
-                    chk.ob("R18.1", fi.where(st), f"{name}: in-range entries come from the spline ({want})", ok, n(st)[:140],
-                           key=f"dispatch|{name}|inside")
-        if not (seen_out and seen_in):
-            raise AnchorMissing(f"{name}: masked stores for inside/outside points not found")
-    chk.floor("R18.1", 12)
-
-
-def _same_mask(fi, a: str, b: str) -> bool:
-    return a == b
 
 
 def _callee_key(v: ast.expr) -> str:
@@ -186,68 +258,293 @@ def _callee_key(v: ast.expr) -> str:
     return type(v).__name__
 
 
+# ------------------------------------------------------------------ R18.1
+def r18_1(chk: Check) -> None:
+    S = chk.src
+    ci = S.cls(IF)
+    summ = _mask_summaries(chk)
+    chk.note(f"mask summaries: { {k: v[0] for k, v in summ.items()} }")
+    for name, fi in sorted(ci.methods.items()):
+        M = Masks(S, fi, summ)
+        for st in own_nodes(fi.node):
+            sm = M.store_mask(st)
+            if sm is None:
+                continue
+            chk.touch(fi.name)
+            m, info = sm
+            base, ident = info[:2]
+            bad: list = []
+            M.rhs_loads(st.value, base, ident, bad, set())
+            callee = _callee_key(M.cx.resolve(st.value, keep_calls=EVAL_API | {"derivative"}, helpers=False))
+            chk.ob("R18.1", fi.where(st), f"{name}: `{n(st.targets[0])} = ...` evaluates only the points selected by the mask of the store "
+                   f"({M.label(info)})", not bad, "; ".join(bad) + f"  [{n(st)[:120]}]", key=f"masked|{name}|{M.label(info)}|{callee}")
+    # out-of-range points go through the mode dispatch (_evaluateOutOfBounds), in-range points through the spline
+    for name in ("evaluate", "derivative"):
+        fi = ci.methods.get(name)
+        if fi is None:
+            raise AnchorMissing(f"InterpolatableFunction.{name} not found")
+        M = Masks(S, fi, summ)
+        seen_out = seen_in = 0
+        for st in own_nodes(fi.node):
+            sm = M.store_mask(st)
+            if sm is None or sm[1][2] not in ("range", "not:range"):
+                continue
+            role = "outside" if sm[1][2] == "not:range" else "inside"
+            rr = M.cx.resolve(st.value, keep_calls=EVAL_API)
+            used = {x.attr for x in ast.walk(rr) if isinstance(x, ast.Attribute) and isinstance(x.value, ast.Name) and x.value.id == "self"}
+            if role == "outside":
+                seen_out += 1
+                ok = "_evaluateOutOfBounds" in used and not ({"_evaluateDirectly", "_functionImplementation"} & used)
+                chk.ob("R18.1", fi.where(st), f"{name}: out-of-range entries are computed through the per-side mode dispatch "
+                       "(_evaluateOutOfBounds), not by direct evaluation", ok, n(st)[:140], key=f"dispatch|{name}|outside")
+            else:
+                seen_in += 1
+                want = "evaluateInterpolation" if name == "evaluate" else "_interpolatedDerivatives"
+                ok = want in used and not ({"_evaluateDirectly", "_functionImplementation", "_evaluateOutOfBounds"} & used)
+                chk.ob("R18.1", fi.where(st), f"{name}: in-range entries come from the spline ({want})", ok, n(st)[:140],
+                       key=f"dispatch|{name}|inside")
+        if not (seen_out and seen_in):
+            raise AnchorMissing(f"{name}: masked stores for inside/outside points not found")
+    chk.floor("R18.1", 12)
+
+
+# ------------------------------------------------------------------ per-side mode dispatch (match statement or if / elif chain)
+def _enum_member(e: ast.AST):
+    d = dotted(e) if e is not None else None
+    if d and d.split(".")[-2:-1] == [ENUM]:
+        return d.split(".")[-1]
+    return None
+
+
+def _side_attr(e: ast.AST, cx: Ctx):
+    d = dotted(cx.resolve(e)) or ""
+    a = d.split(".")[-1]
+    return a if a in SIDES and d.startswith("self.") else None
+
+
+def _eq_test(t: ast.AST, cx: Ctx):
+    """(side attribute, member) of a test `self.extrapolationTypeX == EExtrapolationType.M` (either operand order, == or is)"""
+    if isinstance(t, ast.Compare) and len(t.ops) == 1 and isinstance(t.ops[0], (ast.Eq, ast.Is)):
+        a, b = t.left, t.comparators[0]
+        for p, q in ((a, b), (b, a)):
+            s, m = _side_attr(p, cx), _enum_member(q)
+            if s and m:
+                return s, m
+    return None
+
+
+def _dispatches(fi, cx: Ctx) -> list:
+    """[(side attribute, anchor node, {member: body}, default body | None)]"""
+    out = []
+
+    def chain(head: ast.If, side: str):
+        arms, default, cur = {}, None, head
+        while True:
+            e = _eq_test(cur.test, cx)
+            arms.setdefault(e[1], cur.body)
+            nxt = cur.orelse[0] if len(cur.orelse) == 1 and isinstance(cur.orelse[0], ast.If) else None
+            e2 = _eq_test(nxt.test, cx) if nxt is not None else None
+            if e2 and e2[0] == side:
+                cur = nxt
+                continue
+            if cur.orelse:
+                default = cur.orelse
+            return arms, default
+
+    def visit(stmts):
+        i = 0
+        while i < len(stmts):
+            st = stmts[i]
+            i += 1
+            if isinstance(st, ast.Match):
+                side = _side_attr(st.subject, cx)
+                if side:
+                    arms, default = {}, None
+                    for c in st.cases:
+                        pats = c.pattern.patterns if isinstance(c.pattern, ast.MatchOr) else [c.pattern]
+                        for p in pats:
+                            mem = _enum_member(p.value) if isinstance(p, ast.MatchValue) else None
+                            if mem and c.guard is None:
+                                arms.setdefault(mem, c.body)
+                            elif isinstance(p, ast.MatchAs) and p.pattern is None and c.guard is None and default is None:
+                                default = c.body
+                    out.append((side, st, arms, default))
+                for c in st.cases:
+                    visit(c.body)
+                continue
+            if isinstance(st, ast.If):
+                e = _eq_test(st.test, cx)
+                if e:
+                    side = e[0]
+                    arms, default = chain(st, side)
+                    # a run of sibling `if mode == M:` statements without else is the same dispatch written as guard-style ifs
+                    while default is None and i < len(stmts) and isinstance(stmts[i], ast.If) and (e2 := _eq_test(stmts[i].test, cx)) and e2[0] == side:
+                        a2, d2 = chain(stmts[i], side)
+                        if d2 is not None:
+                            break
+                        for k_, v_ in a2.items():
+                            arms.setdefault(k_, v_)
+                        i += 1
+                    out.append((side, st, arms, default))
+                    for b_ in list(arms.values()) + ([default] if default else []):
+                        visit(b_)
+                    continue
+            for fld in ("body", "orelse", "finalbody"):
+                sub = getattr(st, fld, None)
+                if isinstance(sub, list):
+                    visit(sub)
+            if isinstance(st, ast.Try):
+                for h in st.handlers:
+                    visit(h.body)
+
+    visit(fi.node.body)
+    return out
+
+
+def _arm_of(disp: list, st: ast.AST):
+    """(side role, member) of the dispatch arm containing statement st"""
+    for side, _, arms, default in disp:
+        for mem, body in arms.items():
+            if any(y is st for s_ in body for y in ast.walk(s_)):
+                return SIDES[side][0], mem
+        if default and any(y is st for s_ in default for y in ast.walk(s_)):
+            return SIDES[side][0], "default"
+    return None, None
+
+
 # ------------------------------------------------------------------ R18.2
+RANK_ORDER = {("upper", "FUNCTION"): 1, ("upper", "CONSTANT"): 2, ("upper", "NONE"): 3,
+              ("lower", "FUNCTION"): 4, ("lower", "CONSTANT"): 5, ("lower", "NONE"): 6}
+
+
+def _shape_offsets(S, fi, M: Masks, e: ast.AST, bases: set, depth: int = 0) -> list:
+    """rank offsets (number of axes appended to the shape of the input) of a result-shape expression, one per arm"""
+    if e is None or depth > 5:
+        return []
+    if isinstance(e, ast.Attribute) and e.attr == "shape" and isinstance(e.value, ast.Name) and M.canon(e.value.id) in bases:
+        return [0]
+    if isinstance(e, ast.BinOp) and isinstance(e.op, ast.Add) and isinstance(e.right, ast.Tuple) \
+            and _shape_offsets(S, fi, M, e.left, bases, depth + 1) == [0]:
+        return [len(e.right.elts)]
+    if isinstance(e, ast.IfExp):
+        return _shape_offsets(S, fi, M, e.body, bases, depth + 1) + _shape_offsets(S, fi, M, e.orelse, bases, depth + 1)
+    if isinstance(e, ast.Name) and e.id in M.assigns and e.id not in M.other and e.id not in M.unpacked:
+        out = []
+        for v in M.assigns[e.id]:
+            out += _shape_offsets(S, fi, M, v, bases, depth + 1)
+        return out
+    if isinstance(e, ast.Call) and isinstance(e.func, ast.Attribute) and isinstance(e.func.value, ast.Name) and e.func.value.id in ("self", fi.cls):
+        # a (new) helper computing the shape: analyse its return statements with the parameter that receives the input
+        h = S.modules[fi.module].funcs.get(f"{fi.cls}.{e.func.attr}")
+        if h is None:
+            return []
+        hp = _params(h)
+        hb = set()
+        for i, p in enumerate(hp):
+            a = kwarg(e, p, i)
+            if isinstance(a, ast.Name) and M.canon(a.id) in bases:
+                hb.add(p)
+        if not hb:
+            return []
+        HM = Masks(S, h, {})
+        out = []
+        for r in own_nodes(h.node):
+            if isinstance(r, ast.Return) and r.value is not None:
+                o = _shape_offsets(S, h, HM, r.value, {HM.canon(p) for p in hb} | hb, depth + 1)
+                if not o:
+                    return []
+                out += o
+        return out
+    return []
+
+
 def r18_2(chk: Check) -> None:
-    fi = chk.src.func(f"{IF}._evaluateOutOfBounds")
+    S = chk.src
+    fi = S.func(f"{IF}._evaluateOutOfBounds")
     chk.touch(fi.name)
-    # rank offsets of the result per arm
-    offsets = []
-    for guards, st in walk_guarded(fi.node):
-        if isinstance(st, ast.Assign) and len(st.targets) == 1 and isinstance(st.targets[0], ast.Name):
-            v = st.value
-            txt = n(v)
-            if txt.startswith("x.shape"):
-                if isinstance(v, ast.BinOp) and isinstance(v.op, ast.Add) and isinstance(v.right, ast.Tuple):
-                    offsets.append((st.targets[0].id, len(v.right.elts), guards))
-                elif isinstance(v, ast.Attribute):
-                    offsets.append((st.targets[0].id, 0, guards))
-    if len(offsets) < 2:
+    M = Masks(S, fi, _mask_summaries(chk))
+    disp = _dispatches(fi, M.cx)
+    # the result array: `R = np.empty(<shape>)` whose shape is, per arm, the shape of the input plus k trailing axes
+    stores = [(st, M.store_mask(st)) for st in own_nodes(fi.node)]
+    stores = [(st, sm) for st, sm in stores if sm is not None and isinstance(st.targets[0].value, ast.Name)]
+    bases = {sm[1][0] for _, sm in stores}
+    res_names: dict[str, list] = {}
+    for st in own_nodes(fi.node):
+        if isinstance(st, ast.Assign) and len(st.targets) == 1 and isinstance(st.targets[0], ast.Name) and isinstance(st.value, ast.Call) \
+                and (dotted(st.value.func) or "").endswith("empty"):
+            offs = _shape_offsets(S, fi, M, kwarg(st.value, "shape", 0), bases)
+            if len(offs) >= 2:
+                res_names[st.targets[0].id] = offs
+    if not res_names:
         raise AnchorMissing("_evaluateOutOfBounds: result-shape arms not found")
-    shape_var = offsets[0][0]
-    min_off = min(o for _, o, _ in offsets)
-    res_names = set()
-    for st in own_nodes(fi.node):
-        if isinstance(st, ast.Assign) and isinstance(st.value, ast.Call) and (dotted(st.value.func) or "").endswith("empty") \
-                and st.value.args and n(st.value.args[0]) == shape_var:
-            res_names.add(st.targets[0].id)
-    k = 0
-    for st in own_nodes(fi.node):
-        if isinstance(st, ast.Assign) and isinstance(st.targets[0], ast.Subscript) and isinstance(st.targets[0].value, ast.Name) \
-                and st.targets[0].value.id in res_names:
-            sl = st.targets[0].slice
-            elts = sl.elts if isinstance(sl, ast.Tuple) else [sl]
-            extra = [e for e in elts[1:] if not (isinstance(e, ast.Constant) and e.value is Ellipsis)]
-            k += 1
-            chk.ob("R18.2", fi.where(st), f"`{n(st.targets[0])}`: a mask of x's shape plus {len(extra)} more index(es) fits the result rank "
-                   f"in every arm (rank(x)+{min_off} for scalar-valued functions)", len(extra) <= min_off,
-                   f"needs rank(x)+{len(extra)}, result has rank(x)+{min_off} when _RETURN_VALUE_COUNT == 1",
-                   key=f"rank|{n(st.targets[0])}|{_callee_key(st.value)}|{k}")
+    k_free = 6
+    for st, (m, info) in sorted(stores, key=lambda p: (-p[0].lineno, -p[0].col_offset)):
+        R = st.targets[0].value.id
+        if R not in res_names:
+            continue
+        min_off = min(res_names[R])
+        sl = st.targets[0].slice
+        elts = sl.elts if isinstance(sl, ast.Tuple) else [sl]
+        extra = [e for e in elts[1:] if not (isinstance(e, ast.Constant) and e.value is Ellipsis)]
+        k = RANK_ORDER.get(_arm_of(disp, st))
+        if k is None:
+            k_free += 1
+            k = k_free
+        shown = "res[" + ", ".join([M.label(info)] + [n(e) for e in elts[1:]]) + "]"
+        callee = _callee_key(M.cx.resolve(st.value, keep_calls=EVAL_API, helpers=False))
+        chk.ob("R18.2", fi.where(st), f"`{n(st.targets[0])}`: a mask of x's shape plus {len(extra)} more index(es) fits the result rank "
+               f"in every arm (rank(x)+{min_off} for scalar-valued functions)", len(extra) <= min_off,
+               f"needs rank(x)+{len(extra)}, result has rank(x)+{min_off} when _RETURN_VALUE_COUNT == 1",
+               key=f"rank|{shown}|{callee}|{k}")
     chk.floor("R18.2", 6)
 
 
 # ------------------------------------------------------------------ R18.3
+def _vector_when(t: ast.AST, fx: str, cx: Ctx):
+    """True / False when the test being true means vector- / scalar-valued data, else None"""
+    if isinstance(t, ast.UnaryOp) and isinstance(t.op, ast.Not):
+        v = _vector_when(t.operand, fx, cx)
+        return None if v is None else not v
+    for q in (f"{fx}.ndim", "self._RETURN_VALUE_COUNT"):
+        if eqx(t, f"{q} > 1", cx) or eqx(t, f"{q} >= 2", cx):
+            return True
+        if eqx(t, f"{q} <= 1", cx) or eqx(t, f"{q} < 2", cx):
+            return False
+    return None
+
+
 def r18_3(chk: Check) -> None:
+    S = chk.src
     for fname in ("_dropBadPoints", "scheduleForInterpolation"):
-        fi = chk.src.func(f"{IF}.{fname}")
+        fi = S.func(f"{IF}.{fname}")
         chk.touch(fi.name)
-        # which names index x ?
+        prm = _params(fi)
+        if len(prm) < 2:
+            raise AnchorMissing(f"{fname}: (abscissae, values) parameters not found")
+        M = Masks(S, fi, {})
+        cx = M.cx
+        X, FX = prm[0], prm[1]
+        g = CFG(fi.node)
+        # the per-point masks: whatever indexes the abscissa array
         used = set()
         for x in own_nodes(fi.node):
-            if isinstance(x, ast.Subscript) and isinstance(x.value, ast.Name) and x.value.id == "x" and isinstance(x.slice, ast.Name):
+            if isinstance(x, ast.Subscript) and isinstance(x.value, ast.Name) and M.canon(x.value.id) == X and isinstance(x.slice, ast.Name):
                 used.add(x.slice.id)
+        tests = [(t, _vector_when(t, FX, cx)) for t in g.nodes if g.kind.get(t) == "test"]
+        tests = [(t, v) for t, v in tests if v is not None]
         found = 0
-        for guards, st in walk_guarded(fi.node):
-            if not (isinstance(st, ast.Assign) and isinstance(st.targets[0], ast.Name) and st.targets[0].id in used):
+        for st in sorted([s_ for s_ in own_nodes(fi.node) if isinstance(s_, ast.Assign)], key=lambda s_: s_.lineno):
+            if not (len(st.targets) == 1 and isinstance(st.targets[0], ast.Name) and st.targets[0].id in used):
                 continue
             vec = None
-            for t, pol in guards:
-                if isinstance(t, ast.Compare):
-                    s = n(t)
-                    if s in ("fx.ndim > 1", "self._RETURN_VALUE_COUNT > 1"):
-                        vec = pol
+            for t, v in tests:
+                if _only_via(g, t, True, st):
+                    vec = v
+                elif _only_via(g, t, False, st):
+                    vec = not v
             if vec is None:
                 continue
-            v = st.value
+            v = cx.resolve(st.value)
             kind, axis = "none", None
             if isinstance(v, ast.Call) and (dotted(v.func) or "").split(".")[-1] in ("all", "any"):
                 a = kwarg(v, "axis", 1)
@@ -274,102 +571,144 @@ def r18_3(chk: Check) -> None:
 
 # ------------------------------------------------------------------ R18.4
 def r18_4(chk: Check) -> None:
-    m = chk.src.module("interpolatableFunction")
-    enum = m.classes.get("EExtrapolationType")
+    S = chk.src
+    m = S.module("interpolatableFunction")
+    enum = m.classes.get(ENUM)
     if enum is None:
         raise AnchorMissing("EExtrapolationType not found")
     members = [t.id for st in enum.node.body if isinstance(st, ast.Assign) for t in st.targets if isinstance(t, ast.Name)]
-    fi = chk.src.func(f"{IF}._evaluateOutOfBounds")
-    matches = [st for st in own_nodes(fi.node) if isinstance(st, ast.Match)]
-    sides = {"extrapolationTypeLower": ("xLower", "_rangeMin"), "extrapolationTypeUpper": ("xUpper", "_rangeMax")}
-    seen = 0
-    for mt in matches:
-        subj = dotted(mt.subject) or ""
-        attr = subj.split(".")[-1]
-        if attr not in sides:
+    fi = S.func(f"{IF}._evaluateOutOfBounds")
+    M = Masks(S, fi, _mask_summaries(chk))
+    cx = M.cx
+    disp = [d for d in _dispatches(fi, cx)]
+    # the mask of each side: the one its arms store through
+    side_mask: dict[str, tuple] = {}
+    for attr, _, arms, default in disp:
+        cnt: dict = {}
+        for body in list(arms.values()) + ([default] if default else []):
+            for s_ in body:
+                for y in ast.walk(s_):
+                    sm = M.store_mask(y)
+                    if sm is not None:
+                        cnt.setdefault(sm[1][1], [0, sm])[0] += 1
+        if cnt and attr not in side_mask:
+            side_mask[attr] = max(cnt.values(), key=lambda p: p[0])[1]
+    seen = set()
+    for attr, anchor, arms, default in disp:
+        if attr in seen:
             continue
-        seen += 1
-        mask, bound = sides[attr]
-        other_mask, other_bound = [v for k, v in sides.items() if k != attr][0]
-        covered = {}
-        for c in mt.cases:
-            pat = n(c.pattern)
-            covered[pat.split(".")[-1]] = c
-        chk.ob("R18.4", fi.where(mt), f"match on {attr} covers every EExtrapolationType member", set(members) <= set(covered),
+        seen.add(attr)
+        role, bound = SIDES[attr]
+        other_attr = [k for k in SIDES if k != attr][0]
+        other_bound = SIDES[other_attr][1]
+        own = side_mask.get(attr)
+        covered = dict(arms)
+        if default is not None:
+            for mem in members:
+                covered.setdefault(mem, default)
+        chk.ob("R18.4", fi.where(anchor), f"dispatch on {attr} covers every EExtrapolationType member", set(members) <= set(covered),
                f"members {members}, cases {sorted(covered)}", key=f"exhaustive|{attr}")
-        for mem, c in covered.items():
-            body_txt = " ".join(n(s) for s in c.body)
-            names_used = {x.id for s in c.body for x in ast.walk(s) if isinstance(x, ast.Name)} | \
-                         {x.attr for s in c.body for x in ast.walk(s) if isinstance(x, ast.Attribute)}
-            wrong_side = (other_mask in names_used) or (other_bound in names_used and mem != "ERROR")
-            # calls made in the arm, with local aliases of the arm resolved one level
-            local = {}
-            for s_ in c.body:
-                if isinstance(s_, ast.Assign) and isinstance(s_.targets[0], ast.Name):
-                    local[s_.targets[0].id] = s_.value
-            arm_calls = [x for s_ in c.body for x in ast.walk(s_) if isinstance(x, ast.Call) and isinstance(x.func, ast.Attribute)]
-
-            def argtext(call):
-                a0 = call.args[0] if call.args else None
-                if isinstance(a0, ast.Name) and a0.id in local:
-                    a0 = local[a0.id]
-                return n(a0) if a0 is not None else ""
+        for mem, body in covered.items():
+            body_txt = " ".join(n(s) for s in body)
+            # masks referred to in the arm (by name or written out), and attributes used once its temporaries are looked through
+            foreign = False
+            for s_ in body:
+                for y in ast.walk(s_):
+                    if isinstance(y, (ast.Name, ast.Compare)) and not (isinstance(y, ast.Name) and not isinstance(y.ctx, ast.Load)):
+                        i = M.info(y)
+                        if i is not None and (own is None or i[1] != own[1][1]):
+                            foreign = True
+            attrs_used = {x.attr for s_ in body for x in ast.walk(cx.resolve(s_, keep_calls=EVAL_API)) if isinstance(x, ast.Attribute)}
+            wrong_side = foreign or (other_bound in attrs_used and mem != "ERROR")
+            arm_calls = [x for s_ in body for x in ast.walk(s_) if isinstance(x, ast.Call) and isinstance(x.func, ast.Attribute)]
             direct = [x for x in arm_calls if x.func.attr == "_evaluateDirectly"]
             interp = [x for x in arm_calls if x.func.attr == "evaluateInterpolation"]
+
+            def at_masked_input(call) -> bool:
+                """the argument is the input restricted by this side's mask"""
+                a0 = _arg(S, call, 0)
+                if a0 is None or own is None:
+                    return False
+                r = a0
+                for _ in range(4):      # look through arm-local aliases
+                    if isinstance(r, ast.Name) and len(M.assigns.get(r.id, [])) == 1 and r.id not in M.other and M.info(r) is None:
+                        r = M.assigns[r.id][0]
+                if not (isinstance(r, ast.Subscript) and isinstance(r.value, ast.Name) and M.canon(r.value.id) == own[1][0]):
+                    return False
+                i = M.info(r.slice)
+                return i is not None and i[1] == own[1][1]
+
+            def at_bound(call) -> bool:
+                a0 = _arg(S, call, 0)
+                return a0 is not None and eqx(a0, f"self.{bound}", cx)
+
             if mem == "ERROR":
-                ok = any(isinstance(s, ast.Raise) for s in c.body)
+                ok = any(isinstance(s, ast.Raise) for s in body)
                 want = "raises"
             elif mem == "NONE":
-                ok = len(direct) == 1 and not interp and argtext(direct[0]) == f"x[{mask}]"
-                want = f"evaluates the function directly at x[{mask}]"
+                ok = len(direct) == 1 and not interp and at_masked_input(direct[0])
+                want = f"evaluates the function directly at x[{LABEL[role]}]"
             elif mem == "CONSTANT":
-                ok = len(interp) == 1 and not direct and argtext(interp[0]) == f"self.{bound}"
+                ok = len(interp) == 1 and not direct and at_bound(interp[0])
                 want = f"uses the spline value at self.{bound}"
             elif mem == "FUNCTION":
-                ok = len(interp) == 1 and not direct and argtext(interp[0]) == f"x[{mask}]"
-                want = f"evaluates the (extrapolating) spline at x[{mask}]"
+                ok = len(interp) == 1 and not direct and at_masked_input(interp[0])
+                want = f"evaluates the (extrapolating) spline at x[{LABEL[role]}]"
             else:
                 continue
-            chk.ob("R18.4", fi.where(c.body[0]), f"{attr} == {mem}: {want}; no operand of the other side", ok and not wrong_side,
+            chk.ob("R18.4", fi.where(body[0]), f"{attr} == {mem}: {want}; no operand of the other side", ok and not wrong_side,
                    body_txt[:160], key=f"arm|{attr}|{mem}")
-        # guard of the match: np.any(mask)
-    chk.ob("R18.4", fi.where(), "both per-side dispatches are present", seen == 2, key="two-dispatches")
-    # xLower / xUpper definitions
-    defs = {}
-    for st in own_nodes(fi.node):
-        if isinstance(st, ast.Assign) and isinstance(st.targets[0], ast.Name) and st.targets[0].id in ("xLower", "xUpper"):
-            defs[st.targets[0].id] = n(st.value)
+    chk.ob("R18.4", fi.where(), "both per-side dispatches are present", seen == set(SIDES), key="two-dispatches")
+    # the side masks compare the input with _rangeMin / _rangeMax in the right direction
+    shown = {}
+    oks = []
+    for attr, (role, bound) in SIDES.items():
+        sm = side_mask.get(attr)
+        if sm is None:
+            oks.append(False)
+            continue
+        mexpr, (base, ident, _, r) = sm
+        shown[LABEL[role]] = n(r)
+        op = ("<=", "<") if role == "lower" else (">=", ">")
+        oks.append(any(ident == nf(parse_pattern(f"{base} {o} self.{bound}"), cx) for o in op))
     chk.ob("R18.4", fi.where(), "xLower / xUpper compare x with _rangeMin / _rangeMax in the right direction",
-           defs.get("xLower") in ("x <= self._rangeMin", "x < self._rangeMin") and
-           defs.get("xUpper") in ("x >= self._rangeMax", "x > self._rangeMax"), str(defs), key="side-masks")
+           len(oks) == 2 and all(oks), str(shown), key="side-masks")
     # spline extrapolates iff FUNCTION mode on either side
-    f_int = chk.src.func(f"{IF}._interpolate")
+    f_int = S.func(f"{IF}._interpolate")
+    ci_ = Ctx(S, f_int)
+    lo_, up_, fn_ = "self.extrapolationTypeLower", "self.extrapolationTypeUpper", f"{ENUM}.FUNCTION"
+    either = [f"{fn_} in ({lo_}, {up_})", f"{fn_} in ({up_}, {lo_})", f"{fn_} in [{lo_}, {up_}]", f"{fn_} in [{up_}, {lo_}]",
+              f"{fn_} in {{{lo_}, {up_}}}", f"{lo_} == {fn_} or {up_} == {fn_}", f"{lo_} is {fn_} or {up_} is {fn_}"]
     ok = False
-    for st in own_nodes(f_int.node):
-        if isinstance(st, ast.Call) and (dotted(st.func) or "").endswith("CubicSpline"):
-            e = kwarg(st, "extrapolate", 4)
-            if isinstance(e, ast.Name):
-                for s2 in own_nodes(f_int.node):
-                    if isinstance(s2, ast.Assign) and n(s2.targets[0]) == e.id:
-                        t = n(s2.value)
-                        ok = "EExtrapolationType.FUNCTION in" in t and "self.extrapolationTypeLower" in t and "self.extrapolationTypeUpper" in t
+    for c in own_nodes(f_int.node):
+        if isinstance(c, ast.Call) and (dotted(c.func) or "").endswith("CubicSpline"):
+            e = kwarg(c, "extrapolate", 4)
+            ok = e is not None and any(eqx(e, p, ci_) for p in either)
     chk.ob("R18.4", f_int.where(), "the spline is built extrapolating iff one side is in FUNCTION mode", ok, key="spline-extrapolate")
-    # _findInterpolatablePoints: inside = rangeMin <= x <= rangeMax
-    f_find = chk.src.func(f"{IF}._findInterpolatablePoints")
-    chk.touch(f_find.name)
-    okf = False
-    for st in own_nodes(f_find.node):
-        if isinstance(st, ast.Assign) and isinstance(st.targets[0], ast.Name):
-            t = n(st.value)
-            if "self._rangeMax" in t and "self._rangeMin" in t:
-                okf = ("x <= self._rangeMax" in t or "self._rangeMax >= x" in t) and ("x >= self._rangeMin" in t or "self._rangeMin <= x" in t) and "&" in t
-    chk.ob("R18.4", f_find.where(), "interpolatable points are exactly rangeMin <= x <= rangeMax", okf, key="inside-mask")
+    # the in-range mask of evaluate / derivative (computed by _findInterpolatablePoints or in place): rangeMin <= x <= rangeMax
+    summ = _mask_summaries(chk)
+    okf = True
+    where = None
+    shown_in = []
+    for name in ("evaluate", "derivative"):
+        fe = S.func(f"{IF}.{name}")
+        ME = Masks(S, fe, summ)
+        ins = [sm[1] for sm in (ME.store_mask(st) for st in own_nodes(fe.node)) if sm is not None and sm[1][2] == "range"]
+        shown_in += [n(i[3]) for i in ins]
+        okf = okf and bool(ins) and all(i[1] == nf(parse_pattern(f"({i[0]} <= self._rangeMax) & ({i[0]} >= self._rangeMin)"), ME.cx) for i in ins)
+        where = where or fe.where()
+    for name in summ:
+        f_find = S.func(f"{IF}.{name}")
+        chk.touch(f_find.name)
+        where = f_find.where()
+    chk.ob("R18.4", where, "interpolatable points are exactly rangeMin <= x <= rangeMax", okf, str(sorted(set(shown_in))), key="inside-mask")
     chk.floor("R18.4", 12)
 
 
 # ------------------------------------------------------------------ R18.5
 def r18_5(chk: Check) -> None:
-    ci = chk.src.cls(IF)
+    S = chk.src
+    ci = S.cls(IF)
     writers: dict[str, set] = {}
     for name, fi in ci.methods.items():
         for a, st_ in attr_stores(fi.node):
@@ -380,7 +719,7 @@ def r18_5(chk: Check) -> None:
                 writers.setdefault(name, set()).add(a)
     # subclasses / other modules
     ext = []
-    for fi in chk.src.all_funcs():
+    for fi in S.all_funcs():
         if fi.module == "interpolatableFunction" and fi.cls == "InterpolatableFunction":
             continue
         for x in ast.walk(fi.node):
@@ -391,12 +730,12 @@ def r18_5(chk: Check) -> None:
                         ext.append(fi.where(x))
     chk.ob("R18.5", f"src/WallGo/interpolatableFunction.py", "the six table attributes are written only by _interpolate",
            set(writers) <= {"_interpolate"} and not ext, f"writers {sorted(writers)}; outside: {ext}", key="single-writer")
-    f_int = chk.src.func(f"{IF}._interpolate")
+    f_int = S.func(f"{IF}._interpolate")
     chk.touch(f_int.name)
     chk.ob("R18.5", f_int.where(), "_interpolate writes all six table attributes together",
            writers.get("_interpolate", set()) == set(STATE), str(sorted(writers.get("_interpolate", set()))), key="all-six")
     # pairing inside _interpolate: spline(xF, fxF); rangeMin=min(xF); rangeMax=max(xF); points=xF; values=fxF; (xF,fxF)=_dropBadPoints(x,fx)
-    ex = Extractor(chk.src)
+    ex = Extractor(S)
     ps = [p for p in ex.paths(f_int) if p.raised is None]
     if len(ps) != 1:
         raise Undecided("_interpolate: expected straight-line code")
@@ -414,76 +753,78 @@ def r18_5(chk: Check) -> None:
         and pts != vals
     chk.ob("R18.5", f_int.where(), "stored abscissae and values are the two results of one _dropBadPoints(x, fx) call", okd,
            f"{pts} / {vals}", key="filter-pair")
-    # extension order
-    f_ext = chk.src.func(f"{IF}.extendInterpolationTable")
+    # extension order: the two 3-block concatenations around the stored table
+    f_ext = S.func(f"{IF}.extendInterpolationTable")
     chk.touch(f_ext.name)
-    assigns = {}
-    for st in own_nodes(f_ext.node):
-        if isinstance(st, (ast.Assign, ast.AnnAssign)):
-            t = st.targets[0] if isinstance(st, ast.Assign) else st.target
-            if isinstance(t, ast.Name) and st.value is not None:
-                assigns.setdefault(t.id, []).append(st.value)
-    cat = {}
-    for nm, vs in assigns.items():
-        for v in vs:
-            if isinstance(v, ast.Call) and (dotted(v.func) or "").endswith("concatenate") and isinstance(v.args[0], ast.Tuple):
-                cat[nm] = [n(e) for e in v.args[0].elts]
-    xs = [v for k, v in cat.items() if any("_interpolationPoints" in e for e in v)]
-    fs = [v for k, v in cat.items() if any("_interpolationValues" in e for e in v)]
+    ce = Ctx(S, f_ext)
+    ME = Masks(S, f_ext, {})
+    cats = [c for c in calls_in(f_ext.node, "concatenate") if c.args and isinstance(ce.resolve(c.args[0]), (ast.Tuple, ast.List))]
+    xs = [ce.resolve(c.args[0]).elts for c in cats if has(c.args[0], "self._interpolationPoints", ce)]
+    fs = [ce.resolve(c.args[0]).elts for c in cats if has(c.args[0], "self._interpolationValues", ce)]
     ok = False
-    detail = f"{cat}"
+    detail = "; ".join(n(c) for c in cats)
+    px = pf = None
     if len(xs) == 1 and len(fs) == 1 and len(xs[0]) == 3 and len(fs[0]) == 3:
         px, pf = xs[0], fs[0]
-        # value block i must be f(point block i)
-        def val_of(name):
-            for v in assigns.get(name, []):
-                for c in ast.walk(v):
-                    if isinstance(c, ast.Call) and (dotted(c.func) or "").endswith("_functionImplementation"):
-                        return n(c.args[0])
-            return None
-        ok = ("_interpolationPoints" in px[1] and "_interpolationValues" in pf[1]
-              and val_of(pf[0]) == px[0] and val_of(pf[2]) == px[2])
+
+        def is_f_of(v, p) -> bool:
+            """value block v is f(point block p)"""
+            r = ce.resolve(v, keep_calls={"_functionImplementation"})
+            return any(isinstance(c, ast.Call) and (dotted(c.func) or "").endswith("_functionImplementation")
+                       and _arg(S, c, 0) is not None and same(ce.resolve(_arg(S, c, 0)), p, ce) for c in ast.walk(r))
+        ok = (has(px[1], "self._interpolationPoints", ce) and has(pf[1], "self._interpolationValues", ce)
+              and is_f_of(pf[0], px[0]) and is_f_of(pf[2], px[2]))
     chk.ob("R18.5", f_ext.where(), "extension concatenates (below, old, above) in the same order for abscissae and values, "
            "each new value block being f(its point block)", ok, detail[:300], key="extend-order")
     # new blocks lie strictly outside the old range
-    exx = Extractor(chk.src)
-    blocks = {}
-    for guards, st in walk_guarded(f_ext.node):
-        if isinstance(st, ast.Assign) and isinstance(st.value, ast.Call) and (dotted(st.value.func) or "").endswith("arange"):
-            blocks[st.targets[0].id] = (guards, st)
-    lo = [b for k, b in blocks.items() if "Min" in k]
-    hi = [b for k, b in blocks.items() if "Max" in k]
     okb = False
-    if len(lo) == 1 and len(hi) == 1:
-        gl, sl_ = lo[0]
-        gh, sh = hi[0]
-        gtxt_l = " and ".join(n(t) for t, pol in gl if pol and not isinstance(t, tuple))
-        gtxt_h = " and ".join(n(t) for t, pol in gh if pol and not isinstance(t, tuple))
-        a_l = [n(a) for a in sl_.value.args]
-        a_h = [n(a) for a in sh.value.args]
-        okb = ("newMin < self._rangeMin" in gtxt_l and a_l[:2] == ["newMin", "self._rangeMin"]
-               and "newMax > self._rangeMax" in gtxt_h and a_h[0] == "self._rangeMax + spacing")
-        detail = f"lower: if {gtxt_l}: arange({', '.join(a_l)}); upper: if {gtxt_h}: arange({', '.join(a_h)})"
+    if px is not None and isinstance(px[0], ast.Name) and isinstance(px[2], ast.Name):
+        blocks = {}
+        for guards, st in walk_guarded(f_ext.node):
+            if isinstance(st, ast.Assign) and len(st.targets) == 1 and isinstance(st.targets[0], ast.Name) and st.targets[0].id in (px[0].id, px[2].id):
+                v = ce.resolve(st.value)
+                if isinstance(v, ast.Call) and (dotted(v.func) or "").endswith("arange"):
+                    blocks.setdefault(st.targets[0].id, []).append((guards, v))
+
+        def conj(guards) -> list:
+            out = []
+            for t, pol in guards:
+                if isinstance(t, tuple) or not pol:
+                    continue
+                out += list(t.values) if isinstance(t, ast.BoolOp) and isinstance(t.op, ast.And) else [t]
+            return out
+        lo, hi = blocks.get(px[0].id, []), blocks.get(px[2].id, [])
+        if len(lo) == 1 and len(hi) == 1 and px[0].id != px[2].id:
+            (gl, al), (gh, ah) = lo[0], hi[0]
+            a_l = [kwarg(al, "start", 0), kwarg(al, "stop", 1)] if len(al.args) + len(al.keywords) >= 2 else [None, None]
+            a_h = [kwarg(ah, "start", 0), kwarg(ah, "stop", 1), kwarg(ah, "step", 2)]
+            b = match(a_h[0], "self._rangeMax + __h", ce) if a_h[0] is not None else None
+            okb = (any(eqx(t, "newMin < self._rangeMin", ce) for t in conj(gl)) and eqx(a_l[0], "newMin", ce) and eqx(a_l[1], "self._rangeMin", ce)
+                   and any(eqx(t, "newMax > self._rangeMax", ce) for t in conj(gh)) and b is not None and a_h[2] is not None and eqx(a_h[2], b["h"], ce))
+            detail = (f"lower: if {' and '.join(n(t) for t in conj(gl))}: {n(al)}; upper: if {' and '.join(n(t) for t in conj(gh))}: {n(ah)}")
     chk.ob("R18.5", f_ext.where(), "new abscissa blocks lie strictly below _rangeMin / strictly above _rangeMax "
-           "(arange(newMin, rangeMin, h) and arange(rangeMax + h, ...)), so abscissae stay increasing", okb, detail[:300],
+           "(arange(newMin, rangeMin, h) and arange(rangeMax + h, ..., h)), so abscissae stay increasing", okb, detail[:300],
            key="extend-outside")
     chk.floor("R18.5", 7)
 
 
 # ------------------------------------------------------------------ R18.6
 def r18_6(chk: Check) -> None:
+    S = chk.src
     attrs = ("extrapolationTypeLower", "extrapolationTypeUpper")
     writers = []
-    for fi in chk.src.all_funcs():
+    for fi in S.all_funcs():
         for x in own_nodes(fi.node):
             tg = x.targets if isinstance(x, ast.Assign) else ([x.target] if isinstance(x, ast.AugAssign) else [])
             for t in tg:
-                for tt in (t.elts if isinstance(t, ast.Tuple) else [t]):
+                for tt in (t.elts if isinstance(t, (ast.Tuple, ast.List)) else [t]):
                     if isinstance(tt, ast.Attribute) and tt.attr in attrs:
-                        writers.append((fi, x))
-    fset = chk.src.func(f"{IF}.setExtrapolationType")
+                        writers.append((fi, x, tt))
+    fset = S.func(f"{IF}.setExtrapolationType")
     chk.touch(fset.name)
-    for fi, x in writers:
+    cs = Ctx(S, fset)
+    REBUILD = ("newInterpolationTableFromValues", "_interpolate")
+    for fi, x, tt in writers:
         if fi.qual == "InterpolatableFunction.__init__":
             continue
         if fi.name != fset.name:
@@ -492,57 +833,99 @@ def r18_6(chk: Check) -> None:
             continue
         g = CFG(fi.node)
         node = g.node_of(x)
-        rebuild = set(g.stmts_calling("newInterpolationTableFromValues")) | set(g.stmts_calling("_interpolate"))
-        tests = {t for t in g.nodes if g.kind.get(t) == "test" and "hasInterpolation" in n(t)}
+        rebuild = set()
+        for r_ in REBUILD:
+            rebuild |= set(g.stmts_calling(r_))
+        # tests deciding whether a table exists, with the polarity on which it does
+        tests = {}
+        for t in g.nodes:
+            if g.kind.get(t) != "test":
+                continue
+            if eqx(t, "self.hasInterpolation()", cs):
+                tests[t] = True
+            elif eqx(t, "not self.hasInterpolation()", cs):
+                tests[t] = False
         ok = bool(rebuild) and g.must_pass(node, CFG.EXIT, lambda q: q in rebuild or q in tests)
-        # and the rebuild is on the True arm of the test
-        ok2 = all(any(r in g.reachable(t) for r in rebuild) for t in tests) if tests else True
+        # ... and the branch on which a table exists always rebuilds
+        ok2 = all(b not in (CFG.EXIT, CFG.RAISE) and (b in rebuild or g.must_pass(b, CFG.EXIT, lambda q: q in rebuild))
+                  for t, pol in tests.items() for b in g.branch(t, pol)) and all(g.branch(t, pol) for t, pol in tests.items())
         chk.ob("R18.6", fi.where(x), f"after `{n(x)}` every path rebuilds the spline when a table exists", ok and ok2,
-               key=f"rebuild|{n(x.targets[0]) if isinstance(x, ast.Assign) else ''}")
+               key=f"rebuild|{n(tt)}")
     # rebuild uses the stored table
     ok = False
-    for c in calls_in(fset.node, "newInterpolationTableFromValues"):
-        a = [n(v) for v in c.args]
-        ok = a == ["self._interpolationPoints", "self._interpolationValues"]
+    for r_ in REBUILD:
+        for c in calls_in(fset.node, r_):
+            ok = eqx(_arg(S, c, 0), "self._interpolationPoints", cs) and eqx(_arg(S, c, 1), "self._interpolationValues", cs)
     chk.ob("R18.6", fset.where(), "the rebuild re-interpolates the stored (points, values) pair in this order", ok, key="rebuild-args")
     chk.floor("R18.6", 3)
 
 
 # ------------------------------------------------------------------ R18.7
+def _const(e, cx: Ctx):
+    r = cx.resolve(e) if e is not None else None
+    return r.value if isinstance(r, ast.Constant) else None
+
+
 def r18_7(chk: Check) -> None:
-    fr = chk.src.func(f"{IF}.readInterpolationTable")
-    fw = chk.src.func(f"{IF}.writeInterpolationTable")
+    S = chk.src
+    fr = S.func(f"{IF}.readInterpolationTable")
+    fw = S.func(f"{IF}.writeInterpolationTable")
     chk.touch(fr.name, fw.name)
+    cr, cw = Ctx(S, fr), Ctx(S, fw)
     rd = [c for c in calls_in(fr.node, "genfromtxt")]
     wr = [c for c in calls_in(fw.node, "savetxt")]
     if not rd or not wr:
         raise AnchorMissing("read/writeInterpolationTable: genfromtxt / savetxt not found")
-    dr, dw = kwarg(rd[0], "delimiter"), kwarg(wr[0], "delimiter")
+    dr, dw = kwarg(rd[0], "delimiter", 3), kwarg(wr[0], "delimiter", 3)
     chk.ob("R18.7", fw.where(wr[0]), "writer and reader use the same column delimiter",
-           dr is not None and dw is not None and n(dr) == n(dw), f"{n(dr) if dr else None} vs {n(dw) if dw else None}", key="delimiter")
+           dr is not None and dw is not None and isinstance(_const(dr, cr), str) and _const(dr, cr) == _const(dw, cw),
+           f"{n(dr) if dr else None} vs {n(dw) if dw else None}", key="delimiter")
+    # writer: column_stack((abscissae, values)) is what is saved
     cs = [c for c in calls_in(fw.node, "column_stack")]
     okw = False
-    if cs and isinstance(cs[0].args[0], ast.Tuple):
-        e = [n(x) for x in cs[0].args[0].elts]
-        okw = len(e) == 2 and "_interpolationPoints" in e[0] and "_interpolationValues" in e[1]
+    if cs:
+        tup = cw.resolve(kwarg(cs[0], "tup", 0)) if kwarg(cs[0], "tup", 0) is not None else None
+        if isinstance(tup, (ast.Tuple, ast.List)) and len(tup.elts) == 2:
+            okw = has(tup.elts[0], "self._interpolationPoints", cw) and has(tup.elts[1], "self._interpolationValues", cw) \
+                and not has(tup.elts[0], "self._interpolationValues", cw) and not has(tup.elts[1], "self._interpolationPoints", cw)
     chk.ob("R18.7", fw.where(), "writer puts the abscissae in column 0 and the values in the remaining columns", okw, key="writer-columns")
-    sub = {}
-    for st in own_nodes(fr.node):
-        if isinstance(st, ast.Assign) and isinstance(st.value, ast.Subscript) and n(st.value.value) == "data":
-            sub[st.targets[0].id] = slice_src(st.value.slice)
-    okr = sub.get("x") == ":, 0" and sub.get("fx") == ":, 1:"
-    chk.ob("R18.7", fr.where(), "reader takes column 0 as abscissae and columns 1: as values", okr, str(sub), key="reader-columns")
-    fmt = kwarg(wr[0], "fmt")
+    # reader: the table read by genfromtxt is split into column 0 / columns 1: and interpolated as (x, fx)
+    holder = [st.targets[0].id for st in own_nodes(fr.node) if isinstance(st, ast.Assign) and st.value is rd[0] and len(st.targets) == 1
+              and isinstance(st.targets[0], ast.Name)]
+    D = holder[0] if len(holder) == 1 else None
+    MR = Masks(S, fr, {})
+
+    def roots(e, depth=0) -> list:
+        """defining expressions of e, looking through locals and value-preserving reshapes (np.ravel)"""
+        if depth > 5:
+            return [e]
+        if isinstance(e, ast.Call) and dotted(e.func) in ("np.ravel", "np.asarray", "np.asanyarray", "np.array") and e.args:
+            return roots(e.args[0], depth + 1)
+        if isinstance(e, ast.Name) and e.id != D and e.id in MR.assigns and e.id not in MR.other and e.id not in MR.unpacked:
+            out = []
+            for v in MR.assigns[e.id]:
+                if not (isinstance(v, ast.Call) and dotted(v.func) == "np.ravel" and v.args and isinstance(v.args[0], ast.Name) and v.args[0].id == e.id):
+                    out += roots(v, depth + 1)
+            return out
+        return [e]
+    ic = [c for c in calls_in(fr.node, "_interpolate")]
+    okr = oki = False
+    shown = {}
+    if D is not None and len(ic) == 1:
+        ax, afx = _arg(S, ic[0], 0), _arg(S, ic[0], 1)
+        rx, rfx = (roots(ax) if ax is not None else []), (roots(afx) if afx is not None else [])
+        shown = {"x": [n(e) for e in rx], "fx": [n(e) for e in rfx]}
+        okr = bool(rx) and bool(rfx) and all(eqx(e, f"{D}[:, 0]") for e in rx) and all(eqx(e, f"{D}[:, 1:]") for e in rfx)
+        oki = ax is not None and afx is not None and bool(rx) and bool(rfx)
+    chk.ob("R18.7", fr.where(), "reader takes column 0 as abscissae and columns 1: as values", okr, str(shown), key="reader-columns")
+    fmt = _const(kwarg(wr[0], "fmt", 2), cw)
     prec = None
-    if isinstance(fmt, ast.Constant) and isinstance(fmt.value, str):
-        import re
-        m = re.match(r"%\.(\d+)[ge]", fmt.value)
-        prec = int(m.group(1)) if m else None
+    if isinstance(fmt, str):
+        mm = re.match(r"%\.(\d+)[ge]", fmt)
+        prec = int(mm.group(1)) if mm else None
     chk.ob("R18.7", fw.where(wr[0]), "writer keeps at least 15 significant digits", prec is not None and prec >= 15,
-           n(fmt) if fmt else "default", key="precision")
-    ok = any(isinstance(c, ast.Call) and n(c.func) == "self._interpolate" and [n(a) for a in c.args] == ["x", "fx"]
-             for c in own_nodes(fr.node))
-    chk.ob("R18.7", fr.where(), "reader interpolates (x, fx) as read", ok, key="reader-interpolate")
+           repr(fmt) if fmt else "default", key="precision")
+    chk.ob("R18.7", fr.where(), "reader interpolates (x, fx) as read", oki and okr, key="reader-interpolate")
     chk.floor("R18.7", 5)
 
 
